@@ -135,9 +135,9 @@ void c12::register_straight()
   for (unsigned part = 0; part < 16; ++part)
   {
     vrt::shard("straight<char>/" + std::to_string(part),
-               [part] { straight_part<char>("straight<char>", 0, vrt::thorough() ? 12 : 8, part); });
+               [part] { straight_part<char>("straight<char>", 0, vrt::thorough() ? 12 : 10, part); });
     vrt::shard("straight<wchar_t>/" + std::to_string(part),
-               [part] { straight_part<wchar_t>("straight<wchar_t>", 0, vrt::thorough() ? 12 : 8, part); });
+               [part] { straight_part<wchar_t>("straight<wchar_t>", 0, vrt::thorough() ? 12 : 10, part); });
   }
   for (unsigned part = 0; part < 16; part += 4)
     vrt::shard("straight<wchar_t,wide>/" + std::to_string(part), [part] {
